@@ -4,4 +4,10 @@ import SuxModel.Props.C10
 #print axioms Sux.BFV.copy_width_zero_panics
 #print axioms Sux.BFV.apply_correct
 #print axioms Sux.BFV.apply_correct_pow2
+#print axioms Sux.BFV.chunk_get_correct
+#print axioms Sux.BFV.chunk_set_correct
+#print axioms Sux.BFV.chunk_err_iff
+#print axioms Sux.BFV.chunk_no_oob
+#print axioms Sux.BFV.chunk_zero_panics
 #print axioms Sux.BFV.unaligned_eq_get
+#print axioms Sux.BFV.unaligned_eq_get_call
